@@ -44,6 +44,26 @@ func runThreshold(t *testing.T, rc *RunCtx) {
 		}
 		shareKey[nd] = a.PublicKey().Marshal()
 	}
+	// Swarm variant: a second distributed account whose (already signed, hence refused) duty rides in
+	// the same batch requests as the conflicting duties.
+	decoyPath := ""
+	var decoy Entry
+	if ch.Pick(2, 0) == 1 {
+		decoyPath = "Wallet 3/decoy"
+		g2 := c.spawnGenerate(c.Nodes[0], "client1", decoyPath, uint32(th), uint32(n))
+		if o := s.Run(); o != "done" || !g2.Done || g2.State != pb.ResponseState_SUCCEEDED {
+			rc.Truncated = o == "truncated"
+			return
+		}
+		decoy = AttEntry(0, 1, 2, 777)
+		decoy.AddrPath = decoyPath
+		s.Direct(func() {
+			for _, nd := range c.Nodes {
+				(&Op{Kind: "att", Client: "client1", Entries: []Entry{decoy}}).Exec(nd.Inst)
+			}
+		})
+		rc.Stats.Inc("probe_decoy_account", 1)
+	}
 	// The two conflicting duties.
 	var A, B Entry
 	kind := "att"
@@ -79,6 +99,15 @@ func runThreshold(t *testing.T, rc *RunCtx) {
 		o := &Op{Kind: kind, Client: "client1", Entries: []Entry{e}}
 		if kind == "att" && ch.Pick(3, 0) == 2 {
 			o.Kind = "atts" // through the batch endpoint
+		}
+		if kind == "att" && decoyPath != "" && ch.Pick(2, 0) == 1 {
+			// A batch naming two accounts: the decoy's repeated (refused) duty before or after the real one.
+			o.Kind = "atts"
+			if ch.Pick(3, 0) > 0 {
+				o.Entries = []Entry{decoy, e}
+			} else {
+				o.Entries = []Entry{e, decoy}
+			}
 		}
 		return o
 	}
@@ -156,15 +185,19 @@ func runThreshold(t *testing.T, rc *RunCtx) {
 	// Count valid partial signatures per duty, one per instance.
 	signers := [2]map[*Node][]byte{{}, {}}
 	for _, r := range reqs {
-		if r.res == nil || !r.res.OK(0) {
+		pos := 0
+		if len(r.op.Entries) == 2 && r.op.Entries[0].AddrPath == decoyPath && decoyPath != "" {
+			pos = 1
+		}
+		if r.res == nil || !r.res.OK(pos) {
 			continue
 		}
-		e := &r.op.Entries[0]
-		if !VerifySig(shareKey[r.node], r.res.Sigs[0], e.ObjectRoot(kind), e.Domain) {
+		e := &r.op.Entries[pos]
+		if !VerifySig(shareKey[r.node], r.res.Sigs[pos], e.ObjectRoot(kind), e.Domain) {
 			rc.Violate("C08", "invalid-signature", fmt.Sprintf("partial signature of %s for duty %c does not verify under its share key", r.node.Name, 'A'+r.duty), s.Step)
 			continue
 		}
-		signers[r.duty][r.node] = r.res.Sigs[0]
+		signers[r.duty][r.node] = r.res.Sigs[pos]
 	}
 	for _, nd := range c.Nodes {
 		_, a := signers[0][nd]
